@@ -24,7 +24,7 @@ import numpy as np
 from ._auxiliary import _flatten, _slc, _config
 from ._tests import YastnError, _test_tD_consistency, _test_struct_types
 from ..backend import backend_np
-from ..sym import sym_none, sym_U1, sym_Z2, sym_Z3, sym_U1xU1, sym_U1xU1xZ2
+from ..sym import sym_none, sym_U1, sym_Z2, sym_Z3, sym_U1xU1, sym_U1xU1xZ2, sym_Z2xU1
 
 __all__ = ['make_config']
 
@@ -35,6 +35,7 @@ _syms = {"dense": sym_none,
          "Z2": sym_Z2,
          "Z3": sym_Z3,
          "U1xU1": sym_U1xU1,
+         "Z2xU1": sym_Z2xU1,
          "U1xU1xZ2": sym_U1xU1xZ2}
 
 
